@@ -12,9 +12,12 @@ for d in sorted(glob.glob(os.path.join(HERE, "seeded", "*"))):
     title = (m.get("title") or m.get("what") or "")[:90].replace("|", "/")
     files = ", ".join(os.path.basename(f) for f in (m.get("files") or []))[:60]
     needs = (m.get("needs") or "")[:140].replace("|", "/").replace("\n", " ")
-    caught = ", ".join(v.get("caught_by", [])) or "**none**"
+    caught_list = m["caught_by_final"] if isinstance(m.get("recheck"), dict) else v.get("caught_by", [])
+    caught = ", ".join(caught_list) or "**none**"
+    if m.get("recheck") == "patch does not apply to the repaired tree":
+        caught += " (patch no longer applies to the repaired tree; result of the original evaluation)"
     first = ""
-    for c, r in v.get("checks", {}).items():
+    for c, r in (m["recheck"] if isinstance(m.get("recheck"), dict) else v.get("checks", {})).items():
         if r.get("exit") == 1 and r.get("violations"):
             first = r["violations"][0].strip().split(":")[0]
             break
@@ -24,10 +27,13 @@ n = len(rows)
 caught_n = sum(1 for r in rows if "**none**" not in r)
 text = f"""## 11. Seeded changes: which checks catch which
 
-Independent sub-agents (one per property; given only the property text and a scratch worktree) produced {n} changes, each with a
-demonstration that fails with the change and passes without, and with the repository's test suite still passing. Each was confirmed
-here (`tools/seeded_eval.py`: demo with / without the patch in the scratch worktree, relevant repository tests with the patch), then
-applied to `/repo`, the listed quick checks were run, and `/repo` was restored. {caught_n} of {n} are caught by at least one quick check.
+Independent sub-agents (six waves; each given only property text — one property, or in the fifth wave all claimed ones plus a set of
+files — and a scratch worktree) produced {n} changes, each with a demonstration that fails with the change and passes without, and
+with the repository's test suite still passing. Each was confirmed here (`tools/seeded_eval.py`: demo with / without the patch in the
+scratch worktree, relevant repository tests with the patch), then applied to `/repo`, the listed quick checks were run, and `/repo`
+was restored. Because the checks were strengthened between waves, every kept change was finally re-run against the machinery as
+committed (`tools/seeded_recheck.py`: patch applied to a scratch worktree of the repaired tree, checks pointed at it through
+`RLSIM_REPO`; "recheck" in the record); the column below shows that final result. {caught_n} of {n} are caught by at least one quick check.
 `seeded/<id>/meta.json` holds the full record (what was run, exit codes, first violation lines).
 
 | id | change | file(s) | needs to manifest | demo | caught by (quick tier) | first clause |
